@@ -49,6 +49,13 @@ def run(run, args):
                 knowns.setdefault(k, []).append(i)
         else:
             fails.append(i)
+    # the crate's own `==` between the parsed-back (or deserialized) composition and the original with a populated mass cache
+    neq = [r["id"] for r in recs if any(x is False for x in r.get("eq", []))]
+    run.cov["equal_after_round_trip"] = {"compared": sum(1 for r in recs for x in r.get("eq", []) if x is not None), "unequal": len(neq)}
+    run.oblige("the text (and the serde form) parses back to a composition that is `==` the original, whatever the original has cached", not neq, "%d unequal" % len(neq))
+    for i in neq:
+        if i not in fails:
+            fails.append(i)
     sizes = Counter(len(r["ents"]) for r in recs)
     run.cov.update({"evaluations": len(recs), "renderings_compared": sum(r["orders"] * 4 for r in recs), "distinct_nontrivial": len(set(res[2])),
                     "rule": "compositions of 0-6 distinct keys drawn from all 444 table keys (2 of 3 from a pool that mixes plain and fixed-isotope keys of C, H, "
